@@ -761,7 +761,7 @@ func (c *Ctx) ErrorsPropagate(fn *ssa.Function, label string, skip func(*ssa.Cal
 		}
 		// only errors produced by calls
 		var call *ssa.Call
-		switch x := v.(type) {
+		switch x := strip(v).(type) { // strip: a load of a local cell (named result) resolves to the value last stored
 		case *ssa.Call:
 			call = x
 		case *ssa.Extract:
